@@ -1,12 +1,13 @@
 /-
-  C10 — key export formats round-trip and reject damage: WIF strings and BIP32 extended-key strings.
-  (BIP38 is not covered by these theorems.) Property theorems only; proofs in `Proofs/Wif.lean` and
-  `Proofs/WifXKey.lean`. The Base58Check checksum function `ck` is arbitrary with four-byte values;
+  C10 — key export formats round-trip and reject damage: WIF strings, BIP32 extended-key strings and
+  BIP38 encrypted keys. Property theorems only; proofs in `Proofs/Wif.lean`, `Proofs/WifXKey.lean`
+  and `Proofs/WifBip38.lean`. The Base58Check checksum function `ck` is arbitrary with four-byte values;
   the public-key check of extended public keys is an arbitrary predicate `pubOk` (C06 owns it).
 -/
 import BtcVerif.Proofs.Wif
 import BtcVerif.Proofs.WifXKey
 import BtcVerif.Proofs.AddressRef
+import BtcVerif.Proofs.WifBip38
 
 namespace BtcVerif.Props.C10
 open BtcVerif BtcVerif.Model
@@ -118,5 +119,88 @@ example : Proofs.XKey.WF (fun _ => true) (List.replicate 32 1) (List.replicate 3
     76066276 true := ⟨by decide, by decide, by decide, by decide, by decide, by decide⟩
 example : Proofs.XKey.WF (fun k => k.length == 33) (2 :: List.replicate 32 1) (List.replicate 32 2)
     [0, 0, 0, 0] 0 0 76067358 false := ⟨by decide, by decide, by decide, by decide, by decide, by decide⟩
+
+/-! ### BIP38 — parametric in the block cipher, the key-derivation and hash functions -/
+
+/-- decrypting with the same passphrase what `Encrypt` produced returns the identical key and
+    compression flag: for every 32-byte key that has an address, every passphrase and flag, whenever
+    AES decryption inverts encryption (`Good`) -/
+theorem bip38_roundtrip (P : Bip38.Prims) (g : Proofs.Bip38.Good P) (key pw : Bytes) (c : Bool)
+    (hk : key.length = 32) (addr : Bytes) (hda : Bip38.deriveAddress P key c = .ok addr) :
+    ∃ s, Bip38.encrypt P key pw c = .ok s ∧ Bip38.decrypt P s pw = .ok (key, c) :=
+  Proofs.Bip38.decrypt_encrypt P g key pw c hk addr hda
+
+/-- EC-multiply: a key encrypted with an intermediate code decrypts, with the passphrase the code
+    was derived from, to `factorb · passfactor mod N` (both with and without lot/sequence);
+    `hcomm` is the group law `(fb·pf)·G = fb·(pf·G)`, a hypothesis here (C06 owns the curve) -/
+theorem bip38_ec_roundtrip (P : Bip38.Prims) (g : Proofs.Bip38.Good P) (useLot : Bool)
+    (oe pw pf pp seedb : Bytes) (c : Bool) (hoe : oe.length = 8)
+    (hpf : Bip38.passFactorOf P useLot pw oe = .ok pf) (hpp : P.baseMul pf = .ok pp) (hppl : pp.length = 33)
+    (hsl : seedb.length = 24) (pub addr : Bytes)
+    (hpub : P.pointMul pp (P.dsha256 seedb) c = .ok pub) (haddr : P.p2pkh pub = .ok addr)
+    (hcomm : P.pubKey (P.mulModN (P.dsha256 seedb) pf) c = .ok pub) :
+    ∃ s, Bip38.encryptIntermediateCode P seedb
+        (Base58Check.encode P.cksum ((if useLot then Bip38.magicLot else Bip38.magicPlain) ++ oe ++ pp)) c = .ok s ∧
+      Bip38.decrypt P s pw = .ok (P.mulModN (P.dsha256 seedb) pf, c) :=
+  Proofs.Bip38.ec_roundtrip P g useLot oe pw pf pp seedb c hoe hpf hpp hppl hsl pub addr hpub haddr hcomm
+
+/-- the intermediate codes `GenerateIntermediateCode*` return have exactly the shape
+    `bip38_ec_roundtrip` consumes -/
+theorem bip38_intermediate_code (P : Bip38.Prims) (oe pw pp : Bytes) (hoe : oe.length = 8)
+    (hpp : P.baseMul (P.scrypt pw oe 16384 8 8 32) = .ok pp) :
+    Bip38.intermediateCode P oe pw = .ok (Base58Check.encode P.cksum (Bip38.magicPlain ++ oe ++ pp)) ∧
+    Bip38.passFactorOf P false pw oe = .ok (P.scrypt pw oe 16384 8 8 32) :=
+  Proofs.Bip38.intermediateCode_eq P oe pw pp hoe hpp
+
+theorem bip38_intermediate_code_lot (P : Bip38.Prims) (salt pw pp : Bytes) (lot sequence : Nat)
+    (hs : salt.length = 4) (hlot : lot ≤ 0xfffff) (hseq : sequence ≤ 0xfff)
+    (hpp : P.baseMul (P.dsha256 (P.scrypt pw salt 16384 8 8 32 ++
+      (salt ++ beBytes 4 ((lot <<< 12 + sequence) % 4294967296)))) = .ok pp) :
+    let oe := salt ++ beBytes 4 ((lot <<< 12 + sequence) % 4294967296)
+    Bip38.intermediateCodeLot P salt pw lot sequence =
+      .ok (Base58Check.encode P.cksum (Bip38.magicLot ++ oe ++ pp)) ∧
+    oe.length = 8 ∧
+    Bip38.passFactorOf P true pw oe = .ok (P.dsha256 (P.scrypt pw salt 16384 8 8 32 ++ oe)) :=
+  Proofs.Bip38.intermediateCodeLot_eq P salt pw pp lot sequence hs hlot hseq hpp
+
+/-- decryption reports success only when the address hash of the recovered key equals the four
+    bytes embedded in the ciphertext: a wrong passphrase or an altered ciphertext is an error
+    unless those 32 bits collide -/
+theorem bip38_success_implies_hash_match (P : Bip38.Prims) (s pw k : Bytes) (c : Bool)
+    (h : Bip38.decrypt P s pw = .ok (k, c)) :
+    ∃ d addr, Base58Check.decode P.cksum s = .ok d ∧ Bip38.deriveAddress P k c = .ok addr ∧
+      Bip38.slice (P.dsha256 addr) 0 4 = Bip38.slice d 3 7 := by
+  obtain ⟨d, _, hd, _, _, _, _, _, addr, hda, hs⟩ := Proofs.Bip38.decrypt_ok P s pw k c h
+  exact ⟨d, addr, hd, hda, hs⟩
+
+theorem flag_or_cases : ∀ n, n < 256 → n ||| 32 = 224 → n = 192 ∨ n = 224 := by
+  decide +kernel
+
+/-- the flag byte is validated strictly (D22): success implies a 39-byte payload `01 42 f …` with
+    `f ∈ {c0, e0}` or `01 43 f …` with only the bits 20 and 04 possibly set, and the returned
+    compression flag is bit 20 of `f` -/
+theorem bip38_flag_strict (P : Bip38.Prims) (s pw k : Bytes) (c : Bool)
+    (h : Bip38.decrypt P s pw = .ok (k, c)) :
+    ∃ d flag, Base58Check.decode P.cksum s = .ok d ∧ d.length = 39 ∧ d[0]? = some 1 ∧ d[2]? = some flag ∧
+      ((d[1]? = some 0x42 ∧ (flag = 0xc0 ∨ flag = 0xe0)) ∨
+       (d[1]? = some 0x43 ∧ flag.toNat &&& 219 = 0)) ∧
+      c = decide (flag.toNat &&& 32 ≠ 0) := by
+  obtain ⟨d, flag, hd, hl, h0, h2, hcase, hc, _⟩ := Proofs.Bip38.decrypt_ok P s pw k c h
+  refine ⟨d, flag, hd, hl, h0, h2, ?_, hc⟩
+  rcases hcase with ⟨h1, hf⟩ | ⟨h1, hf⟩
+  · left
+    refine ⟨h1, ?_⟩
+    rcases flag_or_cases flag.toNat flag.toNat_lt hf with h | h
+    · left; exact UInt8.toNat_inj.mp (by simpa using h)
+    · right; exact UInt8.toNat_inj.mp (by simpa using h)
+  · exact Or.inr ⟨h1, hf⟩
+
+/-- the hypotheses on the primitives are satisfiable (identity cipher, constant hashes) -/
+example : Proofs.Bip38.Good
+    { scrypt := fun _ _ _ _ _ n => List.replicate n 0, aesEnc := fun _ x => x, aesDec := fun _ x => x,
+      dsha256 := fun _ => List.replicate 32 0, cksum := fun _ => [0, 0, 0, 0],
+      pubKey := fun _ _ => .ok [2], p2pkh := fun _ => .ok [0x31], baseMul := fun _ => .ok [2],
+      pointMul := fun _ _ _ => .ok [2], mulModN := fun a _ => a } :=
+  ⟨fun _ _ => rfl, fun _ _ h => h, fun _ _ _ _ _ n => by simp, fun _ => by simp, fun _ => rfl⟩
 
 end BtcVerif.Props.C10
